@@ -20,7 +20,7 @@ use std::sync::{Arc, Mutex};
 use std::time::Duration;
 
 const T0: u64 = 1_000_000;
-const STEPS: [&str; 6] = ["Suspend", "Delay1", "Delay5", "SysWait5", "Panic", "Return"];
+const STEPS: [&str; 8] = ["Suspend", "Delay1", "Delay5", "SysWait5", "Panic", "Return", "CancelSelf", "CancelNext"];
 static UNIQ: AtomicU64 = AtomicU64::new(0);
 
 #[derive(Clone, Debug)]
@@ -88,10 +88,14 @@ fn run_history(cfg: &Config, hist: &[Op]) -> Outcome {
     let wake: Arc<Mutex<Vec<u64>>> = Arc::new(Mutex::new(vec![0; m]));
     let mut sched = Scheduler::new(format!("c10-sched-{uniq}"), 64 * 1024);
     let mut ids = Vec::new();
+    let shared_ids: Arc<Mutex<Vec<u64>>> = Arc::new(Mutex::new(Vec::new()));
+    // (who was cancelled from inside a body, log length at that moment)
+    let body_cancels: Arc<Mutex<Vec<(usize, usize)>>> = Arc::new(Mutex::new(Vec::new()));
     let mut reports: Vec<Arc<Mutex<Vec<Rep>>>> = Vec::new();
     for i in 0..m {
         let prog = cfg.progs[i].clone();
         let (lg, wk) = (log.clone(), wake.clone());
+        let (sid, bc) = (shared_ids.clone(), body_cancels.clone());
         let mut co: SchedulableCoroutine<'static> = open_coroutine_core::co!(
             Some(format!("c10-{uniq}-{i}")),
             move |s: &Suspender<(), ()>, ()| {
@@ -124,6 +128,16 @@ fn run_history(cfg: &Config, hist: &[Op]) -> Outcome {
                             me().running().expect("leave");
                         }
                         "Panic" => panic!("boom"),
+                        "CancelSelf" | "CancelNext" => {
+                            // a cancel request made while a coroutine is being resumed: the
+                            // target must not be resumed again after its current/next yield
+                            let ids = sid.lock().unwrap().clone();
+                            let j = if STEPS[*st] == "CancelSelf" { i } else { (i + 1) % ids.len() };
+                            bc.lock().unwrap().push((j, lg.lock().unwrap().len()));
+                            Scheduler::try_cancel_coroutine(ids[j]);
+                            wk.lock().unwrap()[i] = 0;
+                            s.suspend()
+                        }
                         _ => return Some(100 + i),
                     }
                 }
@@ -139,6 +153,7 @@ fn run_history(cfg: &Config, hist: &[Op]) -> Outcome {
         reports.push(r);
         ids.push(sched.submit_raw_co(co).expect("submit"));
     }
+    *shared_ids.lock().unwrap() = ids.clone();
     let mut results: HashMap<u64, Result<Option<usize>, String>> = HashMap::new();
     let mut cancelled_at: Vec<Option<usize>> = vec![None; m]; // log length at cancel time
     let mut viol: Option<(String, String, String)> = None;
@@ -178,6 +193,12 @@ fn run_history(cfg: &Config, hist: &[Op]) -> Outcome {
                         break 'outer;
                     }
                 }
+                // cancels requested from inside bodies during this pass
+                for (j, n) in body_cancels.lock().unwrap().iter() {
+                    if cancelled_at[*j].is_none() && !results.contains_key(&ids[*j]) {
+                        cancelled_at[*j] = Some(*n);
+                    }
+                }
                 // every coroutine that was due when the pass started has advanced
                 let lg = log.lock().unwrap().clone();
                 for i in 0..m {
@@ -191,6 +212,14 @@ fn run_history(cfg: &Config, hist: &[Op]) -> Outcome {
                         break 'outer;
                     }
                 }
+            }
+        }
+        // cancels requested from inside bodies (target not finished at that moment)
+        for (j, n) in body_cancels.lock().unwrap().iter() {
+            if cancelled_at[*j].is_none() && !results.contains_key(&ids[*j]) {
+                // the canceller's own current step was logged before the request; the target may
+                // still finish the step it is in (if it is the canceller itself it just yields)
+                cancelled_at[*j] = Some(*n);
             }
         }
         // never resumed before its wake-up time; cancelled ones never log again
@@ -255,7 +284,12 @@ fn run_history(cfg: &Config, hist: &[Op]) -> Outcome {
         key.push_str(&format!("[{i}:pc{pc}"));
         key.push(']');
     }
-    drop(sched);
+    if viol.is_some() {
+        // the scheduler's Drop asserts that nothing is left; after a violation that may not hold
+        std::mem::forget(sched);
+    } else {
+        drop(sched);
+    }
     Outcome { key, viol }
 }
 
@@ -271,9 +305,12 @@ fn state_key(cfg: &Config, hist: &[Op]) -> String {
     let wake: Arc<Mutex<Vec<u64>>> = Arc::new(Mutex::new(vec![0; m]));
     let mut sched = Scheduler::new(format!("c10-key-{uniq}"), 64 * 1024);
     let mut ids = Vec::new();
+    let shared_ids: Arc<Mutex<Vec<u64>>> = Arc::new(Mutex::new(Vec::new()));
+    let body_cancelled: Arc<Mutex<Vec<bool>>> = Arc::new(Mutex::new(vec![false; m]));
     for i in 0..m {
         let prog = cfg.progs[i].clone();
         let (pc, wk) = (pcs.clone(), wake.clone());
+        let (sid, cn) = (shared_ids.clone(), body_cancelled.clone());
         let co: SchedulableCoroutine<'static> = open_coroutine_core::co!(
             Some(format!("c10k-{uniq}-{i}")),
             move |s: &Suspender<(), ()>, ()| {
@@ -296,6 +333,13 @@ fn state_key(cfg: &Config, hist: &[Op]) -> String {
                             let _ = me().running();
                         }
                         "Panic" => panic!("boom"),
+                        "CancelSelf" | "CancelNext" => {
+                            let ids = sid.lock().unwrap().clone();
+                            let j = if STEPS[*st] == "CancelSelf" { i } else { (i + 1) % ids.len() };
+                            Scheduler::try_cancel_coroutine(ids[j]);
+                            cn.lock().unwrap()[j] = true;
+                            s.suspend()
+                        }
                         _ => return Some(100 + i),
                     }
                 }
@@ -307,6 +351,7 @@ fn state_key(cfg: &Config, hist: &[Op]) -> String {
         ).expect("create");
         ids.push(sched.submit_raw_co(co).expect("submit"));
     }
+    *shared_ids.lock().unwrap() = ids.clone();
     let mut done: HashSet<u64> = HashSet::new();
     let mut cancelled = vec![false; m];
     for op in hist {
@@ -324,7 +369,7 @@ fn state_key(cfg: &Config, hist: &[Op]) -> String {
     let mut key = String::new();
     for i in 0..m {
         let w = wake.lock().unwrap()[i];
-        key.push_str(&format!("[pc{} w{} c{} d{}]", pcs.lock().unwrap()[i], w.saturating_sub(t), cancelled[i] as u8, done.contains(&ids[i]) as u8));
+        key.push_str(&format!("[pc{} w{} c{} d{}]", pcs.lock().unwrap()[i], w.saturating_sub(t), (cancelled[i] || body_cancelled.lock().unwrap()[i]) as u8, done.contains(&ids[i]) as u8));
     }
     // drain so that the scheduler can be dropped
     for _ in 0..6 {
@@ -404,7 +449,7 @@ fn programs(max_len: usize) -> Vec<Vec<usize>> {
             if p.last().is_some_and(|s| STEPS[*s] == "Panic") {
                 continue;
             }
-            for s in 0..5 {
+            for s in [0usize, 1, 2, 3, 4, 6, 7] {
                 let mut q = p.clone();
                 q.push(s);
                 next.push(q);
